@@ -141,7 +141,13 @@ int main(int argc, char **argv) {
             else if (!strcmp(op, "removefirst")) ok = V->removefirst(V);
             else if (!strcmp(op, "removelast")) ok = V->removelast(V);
             else if (!strcmp(op, "reverse")) { V->reverse(V); ok = (errno != ENOMEM); }
-            else if (!strcmp(op, "clear")) V->clear(V);
+            else if (!strcmp(op, "clear")) {
+                /* a cursor taken before the vector shrinks is stale afterwards: getnext must simply report the end (and keep no lock) */
+                qvector_obj_t stale; memset(&stale, 0, sizeof stale);
+                int had = V->getnext(V, &stale, false) && V->getnext(V, &stale, false);
+                V->clear(V);
+                if (had && V->getnext(V, &stale, false)) ok = 0;
+            }
             else if (!strcmp(op, "resize")) ok = V->resize(V, (size_t) i);
             else if (!strcmp(op, "toarray")) { asz = 777; arr = V->toarray(V, &asz); ok = arr != NULL; }
             else if (!strcmp(op, "size")) { rv = (int) V->size(V); }
